@@ -48,10 +48,16 @@ def parent_class(chain: list[str]) -> str:
 
 
 CWDS = ["root", "sub", "parent", "unrelated", "unrelated-ignorefile"]
-SPELLINGS = ["abs", "rel", "dot", "dotdot", "slash", "abs-slash"]
-TARGETS = ["project", "subdir", "file", "files"]
+SPELLINGS = ["abs", "rel", "dot", "dotdot", "slash", "abs-slash"]  # one spelling for every target of the invocation
+# per-target spellings of ONE invocation with several targets: "a+b+c" = target i is written in spelling (a, b, c)[i % 3].
+# Each mixes absolute and relative forms; both orders, because either the first or a later target may be the odd one out.
+MIXED_SPELLINGS = ["abs+rel", "rel+abs", "dot+abs+dotdot"]
+TARGETS = ["project", "subdir", "file", "files"]  # target kinds of the parent-name matrix
+MULTI_TARGETS = ["files", "dirs"]  # kinds with several targets in one invocation (the only ones a mixed spelling applies to)
+ALL_TARGETS = TARGETS + ["dirs"]
 
 SUB = "src"  # the sub-directory used as working directory / directory target
+DIRS = [SUB, "lib", "crate"]  # target kind "dirs": several disjoint directories of the project in one invocation
 
 IGNORE_PATTERNS = ["vendored_zq/", "**/gen_*"]
 REPO_IGNORE = ["legacy_zone/", "**/skipme_*"]
@@ -129,6 +135,7 @@ def build(variant: int):
         "project": ["."],
         "subdir": [SUB],
         "file": [core],
+        "dirs": list(DIRS),
         "files": [core, web, f"{SUB}/deep_{v}.ts", f"lib/big_{v}.ts", f"lib/util_{v}.js", f"crate/src/main_{v}.rs", "tests/helper.py", "tests/unit.test.ts",
                   "vendored_zq/thing.py", f"{SUB}/inner/gen_auto.py", "crate/examples/demo.rs", "lib/junk.tmp",
                   dry_files[0], dry_files[2], dry_files[4], str_files[0], str_files[2], str_files[3]],
@@ -148,7 +155,17 @@ def target_paths(targets: dict, meta: dict, kind: str, cmd: str) -> list[str]:
 
 
 def is_dir_target(kind: str) -> bool:
-    return kind in ("project", "subdir")
+    return kind in ("project", "subdir", "dirs")
+
+
+def is_mixed(spelling: str) -> bool:
+    return "+" in spelling
+
+
+def spell_all(root: str, cwd: str, trel: list[str], spelling: str, isdir: bool) -> list[str]:
+    """The command-line arguments for the targets trel: one spelling for all, or (mixed) one per target in rotation."""
+    parts = spelling.split("+")
+    return [spell(root, cwd, t, parts[i % len(parts)], isdir) for i, t in enumerate(trel)]
 
 
 def spell(root: str, cwd: str, t: str, spelling: str, isdir: bool) -> str:
@@ -178,4 +195,6 @@ def spell(root: str, cwd: str, t: str, spelling: str, isdir: bool) -> str:
 
 
 def spelling_class(spelling: str) -> str:
+    if is_mixed(spelling):
+        return "mixed"
     return {"abs": "abs", "abs-slash": "abs", "rel": "rel", "dot": "rel", "slash": "rel", "dotdot": "dotdot"}[spelling]
